@@ -572,6 +572,71 @@ def gen_reps(out):
         out.append('Definition %s %s : list rtok := %s.' % (gname, params, pieces(e)))
 
 
+def gen_head_reps(out):
+    """theory/head.py: FormulaToStr - the representation string of head formulas (the key of Theory.add_formula for them), method by method; the
+    statements of every method are read as text (fail closed) and the format strings cut at their slots as for the body classes"""
+    tree = parse('telingo/theory/head.py')
+
+    def body(name):
+        f = find_fun(tree, name, 'FormulaToStr')
+        return [ast.unparse(x) for x in f.body if not (isinstance(x, ast.Expr) and isinstance(x.value, ast.Constant))]
+
+    def const(src, pat):
+        m = re.fullmatch(pat, src)
+        if not m:
+            raise Unsupported('FormulaToStr: %s does not have the shape %s' % (src, pat))
+        return [coq_str(ast.literal_eval(g)) for g in m.groups()]
+    Q = r"('(?:[^'\\]|\\.)*')"
+    out.append('(* ---- theory/head.py: FormulaToStr (representation strings of head formulas) ---- *)')
+    b = body('visit_TelAtom')
+    if len(b) != 3:
+        raise Unsupported('FormulaToStr.visit_TelAtom')
+    e0, lp, sep, rp = const(b[0], r"args = %s if len\(x\.arguments\) == 0 else '(\(){}(\))'\.format\(%s\.join\(map\(str, x\.arguments\)\)\)" % (Q, Q)) if False else (None, None, None, None)
+    m = re.fullmatch(r"args = %s if len\(x\.arguments\) == 0 else %s\.format\(%s\.join\(map\(str, x\.arguments\)\)\)" % (Q, Q, Q), b[0])
+    if not m:
+        raise Unsupported('FormulaToStr.visit_TelAtom: ' + b[0])
+    empty, fmt, sep = [ast.literal_eval(g) for g in m.groups()]
+    if fmt.count('{}') != 1:
+        raise Unsupported('FormulaToStr.visit_TelAtom: ' + fmt)
+    l, r = fmt.split('{}')
+    pos, neg = const(b[1], r"sign = %s if x\.positive else %s" % (Q, Q))
+    if b[2] != "return '{}{}{}'.format(sign, x.name, args)":
+        raise Unsupported('FormulaToStr.visit_TelAtom: ' + b[2])
+    out.append('Definition hrep_atom_gen (positive : bool) (name : rtok) (args : option rtok) : list rtok := ([RL (if positive then %s else %s)] ++ [name] ++ match args with None => [RL %s] | Some a => [RL %s; a; RL %s] end)%%list.' % (pos, neg, coq_str(empty), coq_str(l), coq_str(r)))
+    out.append('Definition hrep_args_separator_gen : string := %s.' % coq_str(sep))
+    b = body('visit_TelNext')
+    w, st = const(b[0], r"op = %s if x\.weak else %s" % (Q, Q))
+    if len(b) != 2 or b[1] != "return '({}{}{})'.format(x.lhs, op, self(x.rhs))":
+        raise Unsupported('FormulaToStr.visit_TelNext')
+    out.append('Definition hrep_next_gen (n : nat) (weak : bool) (rhs : list rtok) : list rtok := ([RL "("] ++ [RN n] ++ [RL (if weak then %s else %s)] ++ rhs ++ [RL ")"])%%list.' % (w, st))
+    b = body('visit_TelUntil')
+    u, rl = const(b[0], r"op = %s if x\.until else %s" % (Q, Q))
+    (el,) = const(b[1], r"lhs = %s if x\.lhs is None else self\(x\.lhs\)" % Q)
+    if len(b) != 3 or b[2] != "return '({}{}{})'.format(lhs, op, self(x.rhs))":
+        raise Unsupported('FormulaToStr.visit_TelUntil')
+    out.append('Definition hrep_until_gen (until : bool) (lhs : option (list rtok)) (rhs : list rtok) : list rtok := ([RL "("] ++ match lhs with None => [RL %s] | Some l => l end ++ [RL (if until then %s else %s)] ++ rhs ++ [RL ")"])%%list.' % (el, u, rl))
+    b = body('visit_TelClause')
+    if len(b) != 3 or b[0] != 'if len(x.elements) == 1:\n    return self(x.elements[0])' or b[2] != "return '({})'.format(op.join(map(self, x.elements)))":
+        raise Unsupported('FormulaToStr.visit_TelClause')
+    ca, co = const(b[1], r"op = %s if x\.conjunctive else %s" % (Q, Q))
+    out.append('(* a clause with one element prints as the element; with two elements: *)\nDefinition hrep_clause2_gen (conjunctive : bool) (x y : list rtok) : list rtok := ([RL "("] ++ x ++ [RL (if conjunctive then %s else %s)] ++ y ++ [RL ")"])%%list.' % (ca, co))
+    b = body('visit_TelNegation')
+    if b != ["return '(~{})'.format(self(x.rhs))"]:
+        raise Unsupported('FormulaToStr.visit_TelNegation')
+    out.append('Definition hrep_negation_gen (rhs : list rtok) : list rtok := ([RL "(~"] ++ rhs ++ [RL ")"])%list.')
+    b = body('visit_TelConstant')
+    if len(b) != 1:
+        raise Unsupported('FormulaToStr.visit_TelConstant')
+    t, f = const(b[0], r"return %s if x\.value else %s" % (Q, Q))
+    out.append('Definition hrep_constant_gen (value : bool) : list rtok := [RL (if value then %s else %s)].' % (t, f))
+    # the separator of the arguments in the representation of body atoms
+    at = find_fun(parse('telingo/theory/body.py'), '__init__', 'Atom')
+    m = re.search(r"%s\.join\(\[str\(a\) for a in arguments\]\)" % Q, ast.unparse(at))
+    if not m:
+        raise Unsupported('Atom.__init__: separator of the arguments')
+    out.append('Definition rep_args_separator_gen : string := %s.' % coq_str(ast.literal_eval(m.group(1))))
+
+
 # ------------------------------------------------------------------------------------------------ #program directives
 def gen_parts(out):
     """transformers/program.py: ProgramTransformer.visit_Program - straight-line code over prg.name / self.__final / self.__part with one-armed
@@ -1734,7 +1799,7 @@ GROUPS = {
     'app': ('FromApp.v', [gen_app], ['GenPrelude']),
     'loc': ('FromLoc.v', [gen_loc], ['GenPrelude']),
     'parts': ('FromParts.v', [gen_parts], ['GenPrelude']),
-    'reps': ('FromReps.v', [gen_reps], ['GenPrelude']),
+    'reps': ('FromReps.v', [gen_reps, gen_head_reps], ['GenPrelude']),
     'tables': ('FromTables.v', [gen_tables], ['GenPrelude']),
     'theory': ('FromTheory.v', [gen_theory], ['GenPrelude', 'TheoryPrelude']),
     'dynamic': ('FromDynamic.v', [gen_dynamic], ['GenPrelude', 'TheoryPrelude', 'DynPrelude']),
